@@ -409,8 +409,8 @@ class KernelView:
     sources (c/*.c, c/*.h, c/*.cpp) are forwarded, under the rule id '<prefix>.<original id>'; rule texts are kept and
     registered on first use (floor 1); notes / assumptions / unknowns of the other property are dropped."""
 
-    def __init__(self, rep: Report, prefix: str, only_compiled: bool = True):
-        self._rep, self._prefix, self._texts, self._only_c = rep, prefix, {}, only_compiled
+    def __init__(self, rep: Report, prefix: str, only_compiled: bool = True, keep=None):
+        self._rep, self._prefix, self._texts, self._only_c, self._keep = rep, prefix, {}, only_compiled, keep
         self.tier, self.property_id = rep.tier, rep.property_id
 
     def rule(self, rid, text, floor=1):
@@ -418,6 +418,8 @@ class KernelView:
 
     def instance(self, rule, file, qualname, construct, ok, explanation="", line=None, nontrivial=True, sample=None, obligation=False):
         if self._only_c and not file.endswith((".c", ".h", ".cpp")):
+            return bool(ok)
+        if self._keep is not None and not self._keep(file, qualname, construct):
             return bool(ok)
         rid = f"{self._prefix}.{rule}"
         if rid not in self._rep.rules:
